@@ -30,6 +30,8 @@ def float_check(m, degree, periodic, breaks, uf, uvals, T):
     try:
         fb = float_space(m, degree, periodic, breaks, uf)
         it = m['si'].SplineInterpolator1D(fb)
+        w0 = it.get_quadrature_coefficients()
+        w0 *= 3.0          # the caller scales ITS array in place (as with a Jacobian), then asks again
         w = np.array(it.get_quadrature_coefficients(), dtype=float)
         sp = m['spl'].Spline1D(fb)
         u = np.array([float(v) for v in uvals])
@@ -71,6 +73,8 @@ def work(item):
     def body(ctx):
         knots, basis = build_space(m, degree, periodic, breaks, uf)
         interp = m['si'].SplineInterpolator1D(basis)
+        w0 = interp.get_quadrature_coefficients()
+        w0 *= K(3)          # the caller scales ITS array in place (as with a Jacobian), then asks again
         w = interp.get_quadrature_coefficients()
         sp = m['spl'].Spline1D(basis)
         u = sym_data(basis.nbasis)
